@@ -271,7 +271,7 @@ var loadSeeds = []string{
 }
 
 // RepoSnap is the repository tree the corpora are read from.
-const RepoSnap = "/repo"
+const RepoSnap = "/var/tmp/repo-snap3"
 
 func init() {
 	Checks["X-load"] = func(c *Ctx) {
